@@ -17,7 +17,7 @@ ASSUMPTIONS = ["the regressor is a stub recording fit() (score() returns 1.0); s
 
 @st.composite
 def histories(draw):
-    kind = draw(st.sampled_from(["scikit", "scikit", "minimal"]))
+    kind = draw(st.sampled_from(["scikit", "scikit", "minimal", "scikit-default"]))
     has_hook = draw(st.sampled_from([True, True, True, False]))
     ts = draw(st.sampled_from([-1, 1, 2, 3, 10]))
     ops = []
@@ -29,7 +29,11 @@ def histories(draw):
             ops.append({"op": o, "x": [draw(st.integers(-5, 5)) / 2.0, draw(st.integers(-5, 5)) / 2.0],
                         # "a value" includes falsy ones: an empty list, zero
                         "hook": draw(st.sampled_from(["decline", "value", "value", "empty-list", "zero-list"]))})
-    return {"kind": kind, "hook": has_hook, "train_step": ts, "ops": ops}
+    if kind == "scikit-default":
+        ops = ops[:12]          # the real Gaussian-process regressor is fitted: keep these histories short
+    return {"kind": kind, "hook": has_hook, "train_step": ts, "ops": ops,
+            # an inequality constraint g(x) = x0 (violated for x0 >= 0): Job computes the feasibility flag from it
+            "constrained": draw(st.booleans())}
 
 
 class Stub:
@@ -67,6 +71,9 @@ def check_history(case):
             log.append((list(individual.vector), val))
             return val
 
+    if case.get("constrained"):
+        P.evaluate_inequality_constraints = lambda self, x: [float(x[0])]
+
     class PH(P):
         def predict(self, individual):
             hook_log.append(list(individual.vector))
@@ -97,7 +104,16 @@ def check_history(case):
     prob = (PH if case["hook"] else P)()
     try:
         with guard("predicting"):
-            if case["kind"] == "scikit":
+            if case["kind"] == "scikit-default":
+                sur = SurrogateModelScikit(prob)     # regressor None: the default Gaussian process is created on demand
+                stub = None
+                real_train = sur.train
+
+                def counting_train():
+                    trains.append(len(sur.x_data))
+                    return real_train()
+                sur.train = counting_train
+            elif case["kind"] == "scikit":
                 sur = SurrogateModelScikit(prob)
                 stub = Stub()
                 sur.regressor = stub
